@@ -1031,6 +1031,13 @@ pub trait DynCore {
     fn kind(&self) -> CoreKind;
     /// one `generate()` into a fresh default Results buffer; returns the block as u64 words
     fn generate(&mut self) -> Vec<u64>;
+    /// the owner's buffer holds `prime` (repeated / truncated to its length) when `generate()` is called: what
+    /// an out-parameter holds on entry is the caller's business and public
+    fn generate_primed(&mut self, prime: &[u64]) -> Vec<u64>;
+    /// `generate()` into the process-wide scratch block that every core of this type shares (an
+    /// application that keeps one scratch buffer for all its cores): the block is copied out before anyone
+    /// else can use the scratch again
+    fn generate_shared(&mut self) -> Vec<u64>;
     fn boxed_clone(&self) -> Box<dyn DynCore>;
     /// `Clone::clone_from(self, src)`; false when `src` is another core type
     fn clone_from_dyn(&mut self, src: &dyn DynCore) -> bool;
@@ -1116,6 +1123,21 @@ impl DynCore for CHc128 {
         self.0.generate(&mut self.1);
         self.1.as_ref().iter().map(|x| *x as u64).collect()
     }
+    fn generate_primed(&mut self, prime: &[u64]) -> Vec<u64> {
+        if !prime.is_empty() {
+            for (i, w) in self.1.as_mut().iter_mut().enumerate() {
+                *w = prime[i % prime.len()] as u32;
+            }
+        }
+        self.generate()
+    }
+    fn generate_shared(&mut self) -> Vec<u64> {
+        static SCRATCH: std::sync::Mutex<Option<<rand_hc::Hc128Core as BlockRngCore>::Results>> = std::sync::Mutex::new(None);
+        let mut g = SCRATCH.lock().unwrap_or_else(|e| e.into_inner());
+        let buf = g.get_or_insert_with(Default::default);
+        self.0.generate(buf);
+        buf.as_ref().iter().map(|x| *x as u64).collect()
+    }
     fn boxed_clone(&self) -> Box<dyn DynCore> {
         Box::new(CHc128(self.0.clone(), Default::default()))
     }
@@ -1153,6 +1175,21 @@ impl DynCore for CIsaac {
         self.0.generate(&mut self.1);
         self.1.as_ref().iter().map(|x| *x as u64).collect()
     }
+    fn generate_primed(&mut self, prime: &[u64]) -> Vec<u64> {
+        if !prime.is_empty() {
+            for (i, w) in self.1.as_mut().iter_mut().enumerate() {
+                *w = prime[i % prime.len()] as u32;
+            }
+        }
+        self.generate()
+    }
+    fn generate_shared(&mut self) -> Vec<u64> {
+        static SCRATCH: std::sync::Mutex<Option<<rand_isaac::isaac::IsaacCore as BlockRngCore>::Results>> = std::sync::Mutex::new(None);
+        let mut g = SCRATCH.lock().unwrap_or_else(|e| e.into_inner());
+        let buf = g.get_or_insert_with(Default::default);
+        self.0.generate(buf);
+        buf.as_ref().iter().map(|x| *x as u64).collect()
+    }
     fn boxed_clone(&self) -> Box<dyn DynCore> {
         Box::new(CIsaac(self.0.clone(), Default::default()))
     }
@@ -1189,6 +1226,21 @@ impl DynCore for CIsaac64 {
     fn generate(&mut self) -> Vec<u64> {
         self.0.generate(&mut self.1);
         self.1.as_ref().to_vec()
+    }
+    fn generate_primed(&mut self, prime: &[u64]) -> Vec<u64> {
+        if !prime.is_empty() {
+            for (i, w) in self.1.as_mut().iter_mut().enumerate() {
+                *w = prime[i % prime.len()];
+            }
+        }
+        self.generate()
+    }
+    fn generate_shared(&mut self) -> Vec<u64> {
+        static SCRATCH: std::sync::Mutex<Option<<rand_isaac::isaac64::Isaac64Core as BlockRngCore>::Results>> = std::sync::Mutex::new(None);
+        let mut g = SCRATCH.lock().unwrap_or_else(|e| e.into_inner());
+        let buf = g.get_or_insert_with(Default::default);
+        self.0.generate(buf);
+        buf.as_ref().iter().map(|x| *x).collect()
     }
     fn boxed_clone(&self) -> Box<dyn DynCore> {
         Box::new(CIsaac64(self.0.clone(), Default::default()))
@@ -1268,5 +1320,68 @@ pub fn restore_core(kind: CoreKind, fmt: SnapFmt, bytes: &[u8]) -> Result<Box<dy
     {
         let _ = (kind, fmt, bytes);
         Err("built without snap".into())
+    }
+}
+
+
+/// A block core that an application drives itself, through ONE scratch block shared by all its cores of
+/// that type (`DynCore::generate_shared`); the words of each block are copied out and served from a
+/// private queue. Used by C19: what another core left in the scratch block must not matter.
+pub struct SharedCoreGen {
+    pub core: Box<dyn DynCore>,
+    pub queue: std::collections::VecDeque<u64>,
+}
+impl SharedCoreGen {
+    fn word(&mut self) -> u64 {
+        if self.queue.is_empty() {
+            self.queue.extend(self.core.generate_shared());
+        }
+        self.queue.pop_front().unwrap_or(0)
+    }
+}
+impl DynGen for SharedCoreGen {
+    fn kind(&self) -> Kind {
+        self.core.kind().rng_kind()
+    }
+    fn next_u32(&mut self) -> u32 {
+        self.word() as u32
+    }
+    fn next_u64(&mut self) -> u64 {
+        if self.core.kind() == CoreKind::Isaac64Core {
+            self.word()
+        } else {
+            let lo = self.word();
+            lo | (self.word() << 32)
+        }
+    }
+    fn fill_bytes(&mut self, dest: &mut [u8]) {
+        for ch in dest.chunks_mut(8) {
+            let v = self.next_u64().to_le_bytes();
+            ch.copy_from_slice(&v[..ch.len()]);
+        }
+    }
+    fn boxed_clone(&self) -> Box<dyn DynGen> {
+        Box::new(SharedCoreGen { core: self.core.boxed_clone(), queue: self.queue.clone() })
+    }
+    fn clone_from_dyn(&mut self, _src: &dyn DynGen) -> bool {
+        false
+    }
+    fn eq_dyn(&self, _other: &dyn DynGen) -> Option<bool> {
+        None
+    }
+    fn jump(&mut self) -> bool {
+        false
+    }
+    fn long_jump(&mut self) -> bool {
+        false
+    }
+    fn snapshot(&self, _fmt: SnapFmt) -> Option<Vec<u8>> {
+        None
+    }
+    fn debug(&self) -> (String, String) {
+        self.core.debug()
+    }
+    fn as_any(&self) -> &dyn Any {
+        self
     }
 }
